@@ -3,11 +3,13 @@
    validator sets with voting powers near MaxTotalVotingPower = MaxInt64/8 (C08,
    "extreme powers").  An int64 is logged by the harness as
        [s |-> -1 | 0 | 1,  m |-> <<limb0, limb1, limb2>>]      (24-bit limbs, little endian)
-   The operators below only compare, add and subtract; every level-2 judgement on extreme
-   runs (order, limits, window, atomicity, order-independence, acceptance) is built from
-   them, so no arithmetic oracle for the priorities is needed (the priorities' exact values
-   at this scale are NOT checked - stated as a limit in the evidence).                *)
-EXTENDS Integers, Sequences
+   The operators below compare, add, subtract and divide (binary long division) exactly;
+   every level-2 judgement on extreme runs is built from them: order, limits, window,
+   atomicity, order-independence, acceptance, AND the exact priorities - the map-based
+   reference of an update (XRefResult: newcomers enter at -(T + floor(T/8)), rescale,
+   centre, canonical order) and the reference rotation (XRefIncrement) are evaluated on
+   limbs and compared with the values observed on the real code.                      *)
+EXTENDS Integers, Sequences, FiniteSets
 
 BigBase == 16777216
 BigZero == [s |-> 0, m |-> <<0, 0, 0>>]
@@ -29,7 +31,9 @@ MagAddFrom(a, b, i, n, carry) ==
   IF i > n THEN <<carry>>
   ELSE LET t == Limb(a, i) + Limb(b, i) + carry IN
        <<t % BigBase>> \o MagAddFrom(a, b, i + 1, n, t \div BigBase)
-MagAdd(a, b) == MagAddFrom(a, b, 1, LMax(Len(a), Len(b)), 0)
+RECURSIVE MagTrim(_)
+MagTrim(m) == IF Len(m) > 1 /\ m[Len(m)] = 0 THEN MagTrim(SubSeq(m, 1, Len(m) - 1)) ELSE m
+MagAdd(a, b) == MagTrim(MagAddFrom(a, b, 1, LMax(Len(a), Len(b)), 0))
 
 \* a - b for a >= b
 RECURSIVE MagSubFrom(_, _, _, _, _)
@@ -38,7 +42,16 @@ MagSubFrom(a, b, i, n, borrow) ==
   ELSE LET t == Limb(a, i) - Limb(b, i) - borrow IN
        IF t < 0 THEN <<t + BigBase>> \o MagSubFrom(a, b, i + 1, n, 1)
        ELSE <<t>> \o MagSubFrom(a, b, i + 1, n, 0)
-MagSub(a, b) == MagSubFrom(a, b, 1, LMax(Len(a), Len(b)), 0)
+MagSub(a, b) == MagTrim(MagSubFrom(a, b, 1, LMax(Len(a), Len(b)), 0))
+
+\* a div b, a mod b for b > 0: binary long division (doubling the divisor), depth <= 64
+RECURSIVE MagDivMod(_, _)
+MagDivMod(a, b) ==
+  IF MagCmp(a, b) < 0 THEN [q |-> <<0>>, r |-> MagTrim(a)]
+  ELSE LET h  == MagDivMod(a, MagAdd(b, b))
+           q2 == MagAdd(h.q, h.q)
+       IN IF MagCmp(h.r, b) >= 0 THEN [q |-> MagAdd(q2, <<1>>), r |-> MagSub(h.r, b)]
+          ELSE [q |-> q2, r |-> h.r]
 
 Norm(s, m) == IF MagIsZero(m) THEN [s |-> 0, m |-> m] ELSE [s |-> s, m |-> m]
 BigNeg(x) == [s |-> -x.s, m |-> x.m]
@@ -61,6 +74,13 @@ BigAdd(x, y) ==
 BigSub(x, y) == BigAdd(x, BigNeg(y))
 RECURSIVE BigSum(_)
 BigSum(s) == IF s = << >> THEN BigZero ELSE BigAdd(s[1], BigSum(Tail(s)))
+\* Go's int64 division: truncation toward zero (d > 0)
+BigTruncDiv(x, d) == IF x.s = 0 THEN BigZero ELSE Norm(x.s, MagDivMod(x.m, d.m).q)
+\* big.Int.Div / arithmetic shift: rounding toward -infinity (d > 0)
+BigFloorDiv(x, d) ==
+  IF x.s >= 0 THEN Norm(x.s, MagDivMod(x.m, d.m).q)
+  ELSE LET h == MagDivMod(x.m, d.m) IN
+       Norm(-1, IF MagIsZero(h.r) THEN h.q ELSE MagAdd(h.q, <<1>>))
 BigOfSmall(n) == IF n = 0 THEN BigZero ELSE IF n > 0 THEN [s |-> 1, m |-> <<n, 0, 0>>] ELSE [s |-> -1, m |-> <<-n, 0, 0>>]  \* |n| < 2^24
 
 \* ------------------------------------------------------------------ validator sets in limb form
@@ -111,4 +131,63 @@ XRefAccepts(vals, batch, max) ==
 XResultPowersOK(vals, batch, post) ==
   /\ {post[i].a : i \in DOMAIN post} = XRefMembers(vals, batch)
   /\ \A i \in DOMAIN post : BigEq(post[i].p, XNewPower(vals, batch, post[i].a))
+
+\* ------------------------------------------------------------------ exact reference on limbs
+XSane(vals) == /\ \A i, j \in DOMAIN vals : i # j => vals[i].a # vals[j].a
+               /\ \A i \in DOMAIN vals : vals[i].p.s > 0
+XSameVals(x, y) ==
+  /\ Len(x) = Len(y)
+  /\ \A i \in DOMAIN x : x[i].a = y[i].a /\ BigEq(x[i].p, y[i].p) /\ BigEq(x[i].pr, y[i].pr)
+XOne == BigOfSmall(1)
+\* initial priority of a validator that joins: -(T + (T >> 3)), T = total after the batch's
+\* updates and before its removals (computeNewPriorities)
+XNewcomerPriority(tvp) == BigNeg(BigAdd(tvp, BigFloorDiv(tvp, BigOfSmall(8))))
+\* rescale of a FUNCTION prio : S -> Big (total = total power): the new priority of a
+XRescaled(prio, total, a) ==
+  LET S  == DOMAIN prio
+      hi == prio[CHOOSE x \in S : \A y \in S : BigLeq(prio[y], prio[x])]
+      lo == prio[CHOOSE x \in S : \A y \in S : BigLeq(prio[x], prio[y])]
+      window == BigAdd(total, total)
+      diff == BigSub(hi, lo)
+      ratio == BigTruncDiv(BigSub(BigAdd(diff, window), XOne), window)
+  IN IF BigLess(window, diff) THEN BigTruncDiv(prio[a], ratio) ELSE prio[a]
+RECURSIVE XSumFn(_, _)
+XSumFn(f, R) == IF R = {} THEN BigZero ELSE LET x == CHOOSE y \in R : TRUE IN BigAdd(f[x], XSumFn(f, R \ {x}))
+\* rescale, then centre (subtract the floor of the average)
+XRescaleCentre(prio, total) ==
+  LET S   == DOMAIN prio
+      sc  == [a \in S |-> XRescaled(prio, total, a)]
+      avg == BigFloorDiv(XSumFn(sc, S), BigOfSmall(Cardinality(S)))
+  IN [a \in S |-> BigSub(sc[a], avg)]
+
+\* the result of an accepted batch (cf. TMValSet!RefResult)
+XRefResult(vals, batch) ==
+  LET members == {vals[i].a : i \in DOMAIN vals}
+      result  == XRefMembers(vals, batch)
+      tvp     == XSumOver(vals, batch, members \cup result)
+      total   == XSumOver(vals, batch, result)
+      pen     == XNewcomerPriority(tvp)
+      prio2   == XRescaleCentre([a \in result |-> IF a \in members THEN XGet(vals, a).pr ELSE pen], total)
+      pw      == [a \in result |-> XNewPower(vals, batch, a)]
+      before(a, b) == BigLess(pw[b], pw[a]) \/ (BigEq(pw[a], pw[b]) /\ a < b)
+      pos(a)  == 1 + Cardinality({b \in result : before(b, a)})
+  IN [k \in 1..Cardinality(result) |->
+        LET a == CHOOSE x \in result : pos(x) = k IN [a |-> a, p |-> pw[a], pr |-> prio2[a]]]
+
+\* reference rotation: normalise once, k rounds (cf. TMValSet!RefIncrement)
+XNormalise(vals) ==
+  LET pr2 == XRescaleCentre([i \in DOMAIN vals |-> vals[i].pr], XTotal(vals))
+  IN [i \in DOMAIN vals |-> [vals[i] EXCEPT !.pr = pr2[i]]]
+XRound(vals) ==
+  LET T == XTotal(vals)
+      q == [i \in DOMAIN vals |-> BigAdd(vals[i].pr, vals[i].p)]
+      win == CHOOSE i \in DOMAIN vals : \A j \in DOMAIN vals :
+                j = i \/ BigLess(q[j], q[i]) \/ (BigEq(q[i], q[j]) /\ vals[i].a < vals[j].a)
+  IN [vals |-> [i \in DOMAIN vals |-> [vals[i] EXCEPT !.pr = IF i = win THEN BigSub(q[i], T) ELSE q[i]]],
+      prop |-> vals[win].a]
+RECURSIVE XRounds(_, _, _)
+XRounds(vals, prop, k) ==
+  IF k = 0 THEN [vals |-> vals, prop |-> prop]
+  ELSE LET r == XRound(vals) IN XRounds(r.vals, r.prop, k - 1)
+XRefIncrement(vals, k) == XRounds(XNormalise(vals), 0, k)
 =============================================================================
